@@ -109,6 +109,39 @@ func c05Spec(eco, construct, xs, ys, zs, pre string, arity int) c05Out {
 		} else {
 			o.lo, o.hi = dot3(x, y, 0), dot3(x, y+1, 0)+"-0"
 		}
+	case "npm xrangexx", "npm xrange*":
+		// node-semver: any of X, x, * stands for a missing component, also repeated ("1.x.x", "1.*")
+		if arity == 3 || (construct == "xrangexx" && arity != 1) {
+			return c05Out{}
+		}
+		o.rng = base + ".*"
+		if construct == "xrangexx" {
+			o.rng = base + ".x.x"
+		}
+		o.skipLoPre = true
+		if arity == 1 {
+			o.lo, o.hi = dot3(x, 0, 0), dot3(x+1, 0, 0)+"-0"
+		} else {
+			o.lo, o.hi = dot3(x, y, 0), dot3(x, y+1, 0)+"-0"
+		}
+	case "composer wildcard**", "composer wildcardxx", "composer wildcardx":
+		// Composer's version parser accepts x, X, * as the wildcard, repeated after the last number
+		if arity == 3 || (construct != "wildcardx" && arity != 1) {
+			return c05Out{}
+		}
+		switch construct {
+		case "wildcard**":
+			o.rng = base + ".*.*"
+		case "wildcardxx":
+			o.rng = base + ".x.x"
+		default:
+			o.rng = base + ".x"
+		}
+		if arity == 1 {
+			o.lo, o.hi = dot3(x, 0, 0), dot3(x+1, 0, 0)
+		} else {
+			o.lo, o.hi = dot3(x, y, 0), dot3(x, y+1, 0)
+		}
 	case "cargo wildcard", "composer wildcard":
 		if arity == 3 {
 			return c05Out{}
